@@ -350,7 +350,9 @@ def run_kid_history(case) -> dict:
     return {"viol": viol, "digest": str(case["seed"]), "key": common.key_hash(case), "fired": {"parties": 1}, "probes": {"key_identifier_histories": 1}, "vtime_ns": 0}
 
 
-NUL_NAMES = ["\x00", "domain.test\x00", "x\x00\x00", "a\x00b", "\x00a", "\x00\x00\x00", "b\u00fccher\x00"]
+NUL_NAMES = ["\x00", "domain.test\x00", "x\x00\x00", "a\x00b", "\x00a", "\x00\x00\x00", "b\u00fccher\x00",
+             # names that begin with (or contain) what a UTF-16 decoder could take for a byte order mark
+             "\ufeffdomain.test", "\ufffeab", "a\ufeffb", "\ufeff", "\ufffe\ufffe.test"]
 
 
 def _buffers(raw: bytes, r) -> t.List[t.Tuple[str, t.Any]]:
@@ -406,6 +408,8 @@ def run_codec_inputs(case) -> dict:
     probes = {"codec_input_cases": 1}
     if dom.endswith("\x00") or forest.endswith("\x00"):
         probes["name_ending_in_nul_character"] = 1
+    if dom[:1] in ("\ufeff", "\ufffe") or forest[:1] in ("\ufeff", "\ufffe"):
+        probes["name_starting_with_bom_character"] = 1
     for sname, raw, unpack, fields, want in structs:
         for bname, buf in _buffers(raw, r):
             try:
@@ -481,7 +485,7 @@ class C11(common.Check):
     assumptions = ["structure values that no party can send in this protocol (e.g. an envelope with L1 = 2^32-1) are outside the technique and not claimed",
                    "NDR referent ids are free and compared through the decoder"]
     required_fired = tuple("sd_len_mod8_%d" % i for i in (0, 4)) + ("root_key_ptr_null", "root_key_ptr_set", "reply_seed", "reply_public") + \
-        tuple("env_len_mod8_%d" % i for i in range(8)) + ("envelope_boundary_values", "p521_public_key_decoded", "nil_guid_root_key_id", "thread_structure_cases", "thread_overlap", "damaged_name_then_valid", "key_identifier_histories", "codec_input_cases", "name_ending_in_nul_character", "thread_cases_in_new_process", "ndr_gaps_not_zero")
+        tuple("env_len_mod8_%d" % i for i in range(8)) + ("envelope_boundary_values", "p521_public_key_decoded", "nil_guid_root_key_id", "thread_structure_cases", "thread_overlap", "damaged_name_then_valid", "key_identifier_histories", "codec_input_cases", "name_ending_in_nul_character", "thread_cases_in_new_process", "ndr_gaps_not_zero", "name_starting_with_bom_character")
 
     def cases(self, tier, seed):
         rng = prng.stream(seed, "C11")
